@@ -888,6 +888,21 @@ def catalogue():
                                             Member("yard", T("BOOLEAN", tag=("CONTEXT", 1, None))),
                                             Member("xray", T("INTEGER", tag=("CONTEXT", 2, None), cons=Cons("value", [(0, 7)])))])))
     mods.append(Module("CatChoice", "EXPLICIT", ts))
+    # 6. constraints whose hull is exactly the range of a native C type (checker short cuts), unions with gaps
+    cs = []
+    i = 0
+    for lo_, hi_ in ((0, (1 << 32) - 1), (0, 255), (0, 65535), (-128, 127), (-32768, 32767), (-(1 << 31), (1 << 31) - 1),
+                     (0, (1 << 31) - 1), (0, I64_MAX), (I64_MIN, I64_MAX), (1, (1 << 32) - 1), (0, (1 << 32) - 2)):
+        for k in (0, 15):
+            c = Cons("value", [(lo_, lo_ + k), (hi_ - k, hi_)])
+            cs.append(("K%d" % i, T("INTEGER", cons=c)))
+            cs.append(("K%dq" % i, T("SEQUENCE", members=[Member("id", T("INTEGER", cons=Cons("value", [(lo_, lo_ + k), (hi_ - k, hi_)]))),
+                                                         Member("items", T("SEQOF", elem=T("INTEGER", cons=Cons("value", [(lo_, lo_ + k), (hi_ - k, hi_)]))))])))
+            i += 1
+    cs.append(("KS0", T("OCTETSTRING", size=Cons("size", [(0, 2), (5, 6)]))))
+    cs.append(("KS1", T("IA5String", size=Cons("size", [(1, 1), (4, 4)]), alpha=Cons("from", [(0x41, 0x43), (0x58, 0x5a)]))))
+    cs.append(("KS2", T("SEQOF", elem=T("BOOLEAN"), size=Cons("size", [(0, 1), (3, 3)]))))
+    mods.append(Module("CatCons", "AUTOMATIC", cs))
     mods.append(Module("CatChoiceI", "IMPLICIT", [(n + "i", _retarget(t)) for n, t in ts]))
     return mods
 
@@ -906,6 +921,43 @@ def _retarget(t):
             walk(x.elem)
     walk(t2)
     return t2
+
+
+def boundary_violations(mod, t):
+    """Values just outside the constraint of a catalogue type (every range edge +-1, gap values), for C08."""
+    rt = mod.resolve(t)
+    if rt.kind == "INTEGER" and rt.cons is not None and not rt.cons.ext:
+        lo_lim = 0 if _unsigned_repr(rt.cons) else I64_MIN
+        cands = []
+        for lo, hi in rt.cons.ranges:
+            if lo is not None:
+                cands += [lo - 1, lo - 2, lo - 1000]
+            if hi is not None:
+                cands += [hi + 1, hi + 2, hi + 1000]
+        rs = sorted(rt.cons.ranges, key=lambda r: (r[0] is not None, r[0]))
+        for (a, b), (c, d) in zip(rs, rs[1:]):
+            if b is not None and c is not None and c - b > 1:
+                cands += [(b + c) // 2, b + 1000 if b + 1000 < c else b + 1, c - 1000 if c - 1000 > b else c - 1]
+        return sorted({x for x in cands if lo_lim <= x <= I64_MAX and not rt.cons.contains_root(x)})
+    if rt.kind == "SEQUENCE":
+        base = boundary_values(mod, t)
+        out = []
+        if base:
+            for m in rt.members:
+                mt = mod.resolve(m.type)
+                if mt.kind == "INTEGER":
+                    for bad in boundary_violations(mod, m.type)[:6]:
+                        v = dict(base[0])
+                        v[m.name] = bad
+                        out.append(v)
+                elif mt.kind == "SEQOF" and mod.resolve(mt.elem).kind == "INTEGER":
+                    for bad in boundary_violations(mod, mt.elem)[:6]:
+                        v = dict(base[0])
+                        good = boundary_values(mod, mt.elem)[:1]
+                        v[m.name] = good + [bad]
+                        out.append(v)
+        return out
+    return []
 
 
 def boundary_values(mod, t, depth=0):
@@ -936,6 +988,9 @@ def boundary_values(mod, t, depth=0):
         return sorted(set(x for x in out if rt.cons.contains_root(x) and I64_MIN <= x <= I64_MAX))[:40]
     if depth > 3:
         return []
+    if k in ("SEQOF", "SETOF") and rt.size is None:
+        inner = boundary_values(mod, rt.elem, depth + 1)
+        return [inner[:2]] if inner else []
     if k == "CHOICE":
         out = []
         for m in rt.members:
